@@ -9,56 +9,78 @@ from props import rng_common as RC
 
 PROP = "C07"
 MANIFEST = {
-    "text": "Lean 4 theorems over exact rationals about the count formulas as coded: Random: L + (N-L)*prob = N/R and prob in "
-            "[0,1] when feasible; Gaussian 1-D/2-D: the rejection loop adds exactly k+1 new cells on every candidate stream on "
-            "which it returns, so with k = round_half_even(N/R - #ACS - 1) the count is within 1/2 sample of N/R when "
-            "#ACS + 1/2 <= N/R and equals #ACS otherwise; VD-Poisson: whenever the bisection returns, |R_actual - R| < tol (for "
-            "every sequence of kernel results); the post-condition is about the RETURNED mask (no statement after the tolerance test "
-            "may modify it - generated table); Equispaced: adjusted-acceleration algebra, grid size, rounded grid strictly "
-            "increasing inside the row, count = #ACS + #(grid points outside the ACS block), and the full-strength bound "
-            "|count - N/R| <= 2 for all N, L, R >= 2, offset (attained); choose_acceleration pairs acceleration and centre "
-            "fraction by the same drawn index and rejects uniform_range. Tied to the code by translated rational expressions (bridge lemmas by ring), "
-            "source skeletons of the .pyx loops and of the bisection, and exact differential correspondence on recorded draws "
-            "(uniforms, offsets, reconstructed libc candidate streams, per-iteration accelerations).",
-    "note": "The equispaced bound 2 is a theorem for R >= 2 (for 1 < R < 2, outside the property's range, only N/R - 2 - 1/(2a) <= "
-            "count < N/R + 2); the exhaustive enumeration on N = 32..400, R in {2..12, 2.5, 5.5}, four centre fractions, every offset "
-            "of model and implementation is kept as supporting evidence. Known finding: _poisson.pyx active-list overrun "
-            "(segfault) for max_attempts > 10. The "
-            "statement 'in expectation over seeds' for random masks assumes numpy's uniform distribution and is checked "
-            "statistically (6 sigma band). Magic (offset) generators deviate by design and are reported, not judged. Trusted: "
-            "Lean kernel, the translator, float arithmetic agreeing with exact rational arithmetic away from ties (tie-fragile "
-            "equispaced configurations with a non-dyadic adjusted acceleration are excluded from the exact comparison and "
-            "counted), libc rand reconstruction through ctypes, the Python replica of the bisection bookkeeping.",
-    "technique": "Lean 4 proof (field arithmetic, list/counting inductions, half-even rounding lemmas) + AST translation bridge "
-                 "+ differential correspondence on recorded draw logs + exhaustive enumeration + statistical test",
+    "text": "Lean 4 theorems over exact rationals about the count formulas as coded. Random: L + (N-L)*prob = N/R, prob in [0,1] when "
+            "feasible, count = #ACS + #(non-ACS columns with u < prob) for every draw vector and every frame of a dynamic / multislice "
+            "call, and the expectation as a theorem under an explicit finite-uniform draw model (average over ALL k^N grid draw "
+            "vectors = L + (N-L)*ceil(prob*k)/k: within (N-L)/k of N/R, exactly N/R when prob*k is whole). Gaussian 1-D/2-D: the "
+            "rejection loop adds exactly k+1 new cells on every candidate stream on which it returns, so with "
+            "k = round_half_even(N/R - #ACS - 1) the count is within 1/2 sample of N/R when #ACS + 1/2 <= N/R and equals #ACS "
+            "otherwise - at EVERY step of a one-process call history (history_budget), given that the arrays handed to the in-place "
+            "kernels are freshly bound and the module keeps no memo / mutable default / container (generated tables, decided). "
+            "VD-Poisson: whenever the bisection returns, |R_actual - R| < tol for every sequence of kernel results, for the "
+            "RETURNED mask (post table), with the slope interval inside the model: any midpoint function (binary64 midpoint in "
+            "the driver), interval refinement of the flag model, probed slopes inside the configured `slopes`, exact halving, "
+            "raising only as a binary64 effect. Equispaced: adjusted-acceleration algebra, grid size, rounded grid strictly "
+            "increasing, count = #ACS + #(grid points outside the ACS block), |count - N/R| <= 2 for all N, L, R >= 2, offset "
+            "(attained); at exact ties the model takes the tie directions as inputs (equal to the exact model with half-even "
+            "choices, irrelevant away from ties). Magic (offset) masks: exact count formula in (N, #ACS, integer step, offset) and "
+            "the bracket |count - #ACS - (N-#ACS)/step| <= 2 + 2/step; deviation from N/R by design is a witness theorem. CIRCUS: "
+            "at most M cells per nested square, <= rows*cols/acceleration on even squares (one-sided). choose_acceleration pairs "
+            "acceleration and centre fraction by the same drawn index for every generator and rejects uniform_range. Tied to the "
+            "code by translated rational / integer expressions (bridge lemmas), generated structure tables (Magic frame loop, "
+            "bisection update / initial interval / option use, post statements, .pyx loops, choose_acceleration, process state, "
+            "kernel arrays) and exact differential correspondence on recorded draws, replayed libc candidate streams, traced "
+            "accelerations, slopes and pick counts.",
+    "note": "Judged on the implementation: Gaussian <= 1 sample, equispaced <= 2 columns (sampled + every offset enumerated on "
+            "N = 32..400, R in {2..12, 2.5, 5.5}), VD-Poisson < tol (options tol / crop_corner / slopes / max_attempts; "
+            "max_attempts forwarding), random masks 6 sigma per frame in static / dynamic / multislice mode, Magic against its own "
+            "step formula and comb bracket (not against N/R), CIRCUS against its pick budget (not against N/R), every step of "
+            "one-process call histories, argument forms of `shape`, CreateSamplingMask / apply_mask call sites, unseeded calls. "
+            "Kt generators are reported per frame and per volume, not judged (nothing numeric is documented). Known finding: "
+            "_poisson.pyx active-list overrun (crash or spin) for max_attempts > 10. The bound 2 for equispaced needs R >= 2 "
+            "(for 1 < R < 2, outside the property's range, N/R - 2 - 1/(2a) <= count < N/R + 2). Partial: the statement about "
+            "numpy itself (that `uniform` realises the finite-uniform grid model) is an assumption, checked statistically; "
+            "binary64 rounding of the bisection midpoint is an executable model validated against every traced slope, not a "
+            "theorem about IEEE arithmetic; the Gaussian statements are conditional on the loop returning (C04).",
+    "technique": "Lean 4 proof (field arithmetic, list/counting inductions, half-even rounding lemmas, finite averaging over all "
+                 "draw vectors) + AST translation bridge + differential correspondence on recorded draw logs and call histories + "
+                 "exhaustive enumeration + statistical test",
 }
 TRUSTED = [
     "Lean 4.33 kernel; axioms ⊆ {propext, Classical.choice, Quot.sound}",
-    "harness/translate/recipes/c07.py (rational expressions, .pyx loop text, bisection skeleton)",
-    "recording / forcing RandomState subclass; libc srand/rand + Box-Muller replica through ctypes (candidate streams)",
-    "float64 evaluation of the budget expressions agrees with exact rational evaluation away from exact ties",
-    "numpy uniform is uniform on [0,1) (only for the statistical statement about random masks)",
+    "harness/translate/recipes/c07.py (rational / integer expressions, .pyx loop text, bisection / Magic / process-state tables)",
+    "recording / forcing RandomState subclass; libc srand/rand + Box-Muller replica through ctypes (candidate streams); "
+    "sys.settrace observation of actual_acceleration / slope / M",
+    "float64 evaluation of the budget expressions agrees with exact rational evaluation away from exact ties; at exact ties of the "
+    "equispaced grid the harness (exact Fractions) only chooses between the two candidate columns the real mask shows",
+    "ref_acs: the centre region of a request from first principles (documented formulas) used to judge call-history steps",
+    "numpy uniform realises independent uniform draws on the 53-bit grid (only for the statement about random masks)",
     "the opaque kernels (_poisson geometry, candidate distribution) enter only through recorded results",
 ]
 ASSUMPTIONS = [
     "accelerations used for exact correspondence are integers or dyadic rationals (2.5, 5.5, 3.25, 7.75, 10.5)",
     "Gaussian loop: statements are conditional on the loop returning (termination is C04's concern)",
     "VD-Poisson: the model compares the exact rational value of the double `rows*cols/count` the code computes with the "
-    "exact values of the doubles R and tol (float subtraction of nearby doubles is exact)",
-    "equispaced: tie-fragile configurations (non-dyadic adjusted acceleration with an exact half-integer grid point or an "
-    "exact integer grid length) are checked by the oracle bound only",
+    "exact values of the doubles R and tol (float subtraction of nearby doubles is exact); the binary64 midpoint model `rnd53` "
+    "ignores the exponent range (slopes lie between 2^-60 and 2^10)",
+    "equispaced: tie-fragile configurations with an adjusted acceleration below 2 (R < 2, outside the quantifier) are checked by the "
+    "oracle bound only",
+    "CIRCUS: the traced M may be one below the exact floor when the exact quotient is a whole number (binary64 division)",
 ]
-RULE = ("one case = one frame of one real mask (or one (N, R, L) triple with all its offsets for the enumeration): widths 32..400, "
-        "2-D sizes up to 128x128, accelerations 2..12 incl. non-integers, feasible centre fractions (+ an infeasible stream the "
-        "code must reject or answer with the bare ACS), modes static/dynamic/multislice, several seeds. non-trivial = the frame "
-        "samples at least one column/cell outside the ACS (or the case is an expected rejection); distinct = distinct protocol line")
+RULE = ("one case = one frame of one real mask (or one (N, R, L) triple with all its offsets for the enumeration, one step of a "
+        "one-process call history, one argument form / call site): widths 32..400, 2-D sizes up to 128x128, accelerations 2..12 "
+        "incl. non-integers, feasible centre fractions (+ an infeasible stream the code must reject or answer with the bare ACS), "
+        "modes static/dynamic/multislice, several (acceleration, centre fraction) pairs per instance, several seeds. non-trivial = "
+        "the frame samples at least one column/cell outside the ACS (or the case is an expected rejection); distinct = distinct "
+        "protocol line")
 # the Cython kernel `_poisson` overruns its active list (size nx*ny, boundscheck off) when the sampling radius is ~1 and
 # max_attempts is large: segmentation fault instead of a mask or a ValueError (reported to the lead; C04 territory)
 PENDING_FINDINGS: list[str] = ["generator-crashes/VariableDensityPoisson/active-list-overrun"]   # listed as known: by the lead
 MOD = "props.c07"
 # property-level theorems kept in their own modules (fast builds) + the helper lemmas: hygiene-checked and axiom-audited too
 EXTRA_LEAN_MODULES = ["DirectVerif.Lemmas.C07", "DirectVerif.Lemmas.C07Equi", "DirectVerif.Lemmas.C07Magic",
-                      "DirectVerif.Lemmas.C07Bisect", "DirectVerif.Lemmas.C07Random", "DirectVerif.Lemmas.C07RandomProps", "DirectVerif.Lemmas.C07State", "DirectVerif.Lemmas.C07Ties"]
+                      "DirectVerif.Lemmas.C07Bisect", "DirectVerif.Lemmas.C07Random", "DirectVerif.Lemmas.C07RandomProps", "DirectVerif.Lemmas.C07State", "DirectVerif.Lemmas.C07Ties",
+                      "DirectVerif.Lemmas.C07Circus"]
 DYADIC_R = [2.5, 5.5, 3.25, 7.75, 10.5]
 ENUM_R = [2, 3, 4, 5, 6, 7, 8, 9, 10, 11, 12, 2.5, 5.5]
 ENUM_CF = [0.02, 0.04, 0.06, 0.08]
@@ -407,9 +429,9 @@ def job_forms(args: dict) -> dict:
     ks = torch.ones((3,) + shape)
     try:
         ref = mf(shape, seed=fseed)
-    except Exception as e:  # noqa: BLE001
+    except Exception as e:  # noqa: BLE001 - e.g. VD-Poisson's documented "cannot generate mask" for this seed: nothing to compare
         ref = None
-        out["forms"]["CreateSamplingMask"] = {"err": f"reference call: {type(e).__name__}"}
+        out["skipped"] = f"CreateSamplingMask forms: reference call raises {type(e).__name__}"
     if ref is not None:
         same("CreateSamplingMask", lambda: CreateSamplingMask(mf, use_seed=True)({"kspace": ks, "filename": fname})["sampling_mask"], ref)
         same("CreateSamplingMask/fixed-shape",
@@ -749,9 +771,9 @@ def _run_cases(ctx: Ctx, store: dict):
     try:
         w.start()
         for c in gen_cases(ctx):
-            if nhang.get(c["conf"]["gen"], 0) >= 2:
+            if nhang.get(c["conf"]["gen"], 0) >= 1:
                 store.setdefault("skipped_after_hangs", []).append(c["conf"]["gen"])
-                continue      # two calls of this generator already failed to return: the finding is made, keep the run bounded
+                continue      # a call of this generator already failed to return: the finding is made, keep the run bounded
             try:
                 c["res"] = w.call(MOD, "job_case", {"conf": c["conf"], "shape": c["shape"], "seed": c["seed"]}, budget=90)
             except RC.Hang as e:
@@ -775,13 +797,18 @@ def _run_cases(ctx: Ctx, store: dict):
         # process-level call histories (each in a fresh process)
         store["hist_cases"], store["hist_acs"] = [], []
         for steps in gen_histories(ctx):
+            if any(st["conf"]["gen"] in nhang for st in steps):
+                store.setdefault("skipped_after_hangs", []).append("history")
+                continue
             for st in steps:          # the reference needs the step's own ACS reference filled in for multi-pair steps too
                 if st["kind"] == "mask" and st.get("acs_ref") is None and len(set(st["conf"]["center_fractions"])) == 1:
                     st["acs_ref"] = ref_acs(st["conf"], st["shape"], st["conf"]["center_fractions"][0])
             try:
-                recs = _run_history(steps)
+                recs = _run_history(steps, budget=150)
             except RC.Hang as e:
                 store["hangs"].append({"case": {"conf": {"gen": "history"}, "shape": None, "seed": None, "steps": steps}, "budget": e.budget})
+                for st in steps:
+                    nhang[st["conf"]["gen"]] = nhang.get(st["conf"]["gen"], 0) + 1
                 continue
             except RC.WorkerFailure as e:
                 store["crashes"].append({"case": {"conf": {"gen": "history"}, "shape": None, "seed": None, "steps": steps},
@@ -808,7 +835,12 @@ def _run_cases(ctx: Ctx, store: dict):
             shape = ([fr.randint(2, 3)] if mode != "static" else []) + [rows, cols, 2]
             conf = {"gen": g, "accelerations": [R], "center_fractions": [cf], "mode": mode}
             fc = {"conf": conf, "shape": shape, "seed": fr.randrange(2 ** 31)}
+            if g in nhang:
+                continue
+            nh = len(store["hangs"])
             r = _safe(store, w, "job_forms", fc, 60, fc)
+            if len(store["hangs"]) > nh:
+                nhang[g] = nhang.get(g, 0) + 1
             if r is not None:
                 store["forms"].append(dict(fc, res=r))
         marks.append(("forms", _t.time() - t0))
